@@ -24,15 +24,15 @@ SRC = "src/basictdf"
 RELEVANT = {
     "tdfTypes.py": ["C13", "C06", "C19", "C01", "C12", "C10", "C14", "C04"],
     "basictdf.py": ["C03", "C07", "C10", "C11", "C08", "C17", "C04", "C09", "C14"],
-    "tdfData3D.py": ["C01", "C05", "C16", "C18", "C02", "C19", "C14", "C12", "C20", "C09"],
-    "tdfEMG.py": ["C01", "C05", "C15", "C16", "C18", "C02", "C14"],
-    "tdfForce3D.py": ["C01", "C05", "C16", "C18", "C19", "C02", "C14"],
-    "tdfForcePlatformsData.py": ["C01", "C05", "C15", "C02", "C14"],
-    "tdfForcePlatformsCalibration.py": ["C01", "C15", "C02", "C12", "C14"],
-    "tdfData2D.py": ["C01", "C02", "C06", "C14"],
-    "tdfCalibrationData.py": ["C01", "C02", "C19", "C06", "C14"],
-    "tdfOpticalSystem.py": ["C01", "C12", "C19", "C20", "C14"],
-    "tdfEvents.py": ["C01", "C18", "C19", "C20", "C02", "C14"],
+    "tdfData3D.py": ["C01", "C05", "C16", "C18", "C02", "C19", "C14", "C12", "C20", "C09", "C04"],
+    "tdfEMG.py": ["C01", "C05", "C15", "C16", "C18", "C02", "C14", "C04"],
+    "tdfForce3D.py": ["C01", "C05", "C16", "C18", "C19", "C02", "C14", "C04"],
+    "tdfForcePlatformsData.py": ["C01", "C05", "C15", "C02", "C14", "C04"],
+    "tdfForcePlatformsCalibration.py": ["C01", "C15", "C02", "C12", "C14", "C04"],
+    "tdfData2D.py": ["C01", "C02", "C06", "C14", "C04"],
+    "tdfCalibrationData.py": ["C01", "C02", "C19", "C06", "C14", "C04"],
+    "tdfOpticalSystem.py": ["C01", "C12", "C19", "C20", "C14", "C04"],
+    "tdfEvents.py": ["C01", "C18", "C19", "C20", "C02", "C14", "C04"],
     "tdfUtils.py": ["C08", "C15", "C11"],
     "tdfBlock.py": ["C04", "C11", "C01", "C07"],
 }
